@@ -77,7 +77,7 @@ func NewTickDriver(mode string) *TickDriver {
 	switch mode {
 	case "C07":
 		for k := 0; k < 2; k++ {
-			for _, sg := range []string{"AN", "A", "N", "AO", "S"} {
+			for _, sg := range []string{"AN", "A", "N", "AO", "S", "MN"} {
 				add(tickOp{kind: "addPeer", k: k, signer: sg}, tickOp{kind: "addNode", k: k, signer: sg})
 				for _, st := range []int{0, 1, 2, 3, 4} {
 					if sg != "AN" && (st == 0 || st == 4) {
@@ -91,7 +91,8 @@ func NewTickDriver(mode string) *TickDriver {
 			for _, st := range []int{0, 1, 2, 3, 4} {
 				add(tickOp{kind: "updStateIR", k: k, state: st, signer: "A"})
 			}
-			add(tickOp{kind: "updStateIR", k: k, state: 3, signer: "S"}, tickOp{kind: "updStateIR", k: k, state: 2, signer: "N"},
+			add(tickOp{kind: "updStateIR", k: k, state: 3, signer: "M"}, tickOp{kind: "addPeerIR", k: k, signer: "M"}, tickOp{kind: "delNode", k: k, signer: "M"},
+				tickOp{kind: "updStateIR", k: k, state: 3, signer: "S"}, tickOp{kind: "updStateIR", k: k, state: 2, signer: "N"},
 				tickOp{kind: "delNode", k: k, signer: "A"}, tickOp{kind: "delNode", k: k, signer: "S"}, tickOp{kind: "delNode", k: k, signer: "N"})
 		}
 		add(tickOp{kind: "delNode", k: -1, signer: "A"}, tickOp{kind: "updStateIR", k: -1, state: 1, signer: "A"}, tickOp{kind: "updStateIR", k: -1, state: 3, signer: "A"},
@@ -129,8 +130,8 @@ func NewTickDriver(mode string) *TickDriver {
 
 func (d *TickDriver) Build() *World {
 	n := 1
-	if d.Mode == "C06bare" {
-		n = 3
+	if d.Mode == "C06bare" || d.Mode == "C07" {
+		n = 3 // the committee-majority account differs from the Alphabet account
 	}
 	w := NewWorld(n)
 	w.Deploy("nns", CompileDir(Repo, "nns"), []any{[]any{[]any{"neofs", "ops@x.y"}}})
@@ -237,6 +238,8 @@ func (d *TickDriver) Step(x *Exec, n *Node, i int) StepResult {
 		signers = []util.Uint160{w.Acct("S").Hash}
 	case "M":
 		signers = []util.Uint160{w.Comm} // committee majority: not the Alphabet on a 3-key committee
+	case "MN":
+		signers, node = []util.Uint160{w.Comm, d.nodes[ki].Hash}, true
 	case "M1":
 		signers = []util.Uint160{w.Members[0].Hash}
 	}
